@@ -200,7 +200,12 @@ pub(crate) fn validate_username(username: &str) -> Result<(), ValidationError> {
         Err(ValidationError::new(
             "Username must not have channel prefix.",
         ))
-    } else if !username.contains('.') && !username.contains(':') && !username.contains(',') {
+    } else if !username.is_empty()
+        && !username.contains('.')
+        && !username.contains(':')
+        && !username.contains(',')
+        && !username.contains(' ')
+    {
         Ok(())
     } else {
         Err(ValidationError::new(
@@ -213,6 +218,7 @@ pub(crate) fn validate_channel(channel: &str) -> Result<(), ValidationError> {
     if !channel.is_empty()
         && !channel.contains(':')
         && !channel.contains(',')
+        && !channel.contains(' ')
         && (channel.as_bytes()[0] == b'#' || channel.as_bytes()[0] == b'&')
     {
         Ok(())
